@@ -39,6 +39,79 @@ def safe_interior(node, x):
     return True
 
 
+def offsets_suite(rnd, count, findings):
+    """numerically delicate but legal values: means that are huge compared with the standard deviations (epoch seconds known to a millisecond, ...)"""
+    from fractions import Fraction
+    from hmclab import Distributions as D
+    from ..probes import quiet
+
+    so = Suite("C05.offsets", "Normal (scalar, per-dimension, diagonal-matrix and full covariance) and Laplace whose means are 1e6 .. 1e15 times their standard deviations, "
+               "evaluated a few standard deviations from the mean, bare and inside Composite / BayesRule: gradient() vs the exact rational value of the derivative "
+               "(computed with fractions from the constructor arguments), relative 1e-9; non-trivial = all")
+    for ci in range(count):
+        d = rnd.choice([1, 2, 3])
+        big = rnd.choice([1e6, 1e9, 1.7e9, 1e12, 1e15])
+        sd = [rnd.choice([1e-3, 1e-2, 1.0, 8.0]) for _ in range(d)]
+        mu = np.array([[rnd.choice([-1, 1]) * big * rnd.uniform(0.5, 1.5)] for _ in range(d)])
+        x = mu + np.array([[rnd.uniform(-3, 3) * sd[i]] for i in range(d)])
+        kind = rnd.choice(["normalscalar", "normaldiag", "normaldiagmatrix", "normalfull", "laplace"])
+        var = np.array([[s_ ** 2] for s_ in sd])
+        if kind == "normalscalar":
+            var = np.ones((d, 1)) * var[0, 0]
+            obj = D.Normal(mu.copy(), float(var[0, 0]))
+        elif kind == "normaldiag":
+            obj = D.Normal(mu.copy(), var.copy())
+        elif kind == "normaldiagmatrix":
+            obj = D.Normal(mu.copy(), np.diag(var.ravel()))
+        elif kind == "normalfull":
+            cov = np.diag(var.ravel())
+            if d > 1:
+                cov[0, 1] = cov[1, 0] = 0.3 * math.sqrt(cov[0, 0] * cov[1, 1])
+            obj = D.Normal(mu.copy(), cov.copy())
+        else:
+            obj = D.Laplace(mu.copy(), np.array([[s_] for s_ in sd]))
+        # exact reference from the constructor arguments
+        fx = [Fraction(float(v)) for v in x.ravel()]
+        fm = [Fraction(float(v)) for v in mu.ravel()]
+        if kind == "laplace":
+            ref = [(1 if fx[i] > fm[i] else -1 if fx[i] < fm[i] else 0) / Fraction(sd[i]) for i in range(d)]
+        elif kind == "normalfull":
+            C = np.diag(var.ravel())
+            if d > 1:
+                C[0, 1] = C[1, 0] = 0.3 * math.sqrt(C[0, 0] * C[1, 1])
+            Ci = np.linalg.inv(C)
+            r = [float(fx[i] - fm[i]) for i in range(d)]      # the difference is exact in rationals, then rounded once
+            ref = [Fraction(float(sum(Ci[i, j] * r[j] for j in range(d)))) for i in range(d)]
+        else:
+            ref = [(fx[i] - fm[i]) / Fraction(float(var[i, 0])) for i in range(d)]
+        wrap = rnd.choice(["bare", "bare", "composite", "bayes"])
+        tgt, xx, reff = obj, x, ref
+        if wrap == "composite":
+            tgt = D.CompositeDistribution([obj, D.Normal(np.zeros((1, 1)), 1.0)])
+            xx = np.vstack([x, [[0.25]]])
+            reff = ref + [Fraction(0.25)]
+        elif wrap == "bayes":
+            tgt = D.BayesRule([obj, D.Uniform((mu - 1e3 * big).ravel().tolist(), (mu + 1e3 * big).ravel().tolist())])
+        stim = {"class": kind, "wrapper": wrap, "means": mu.ravel().tolist(), "standard_deviations": sd, "x_minus_mean_in_sd": ((x - mu).ravel() / np.array(sd)).tolist()}
+        so.case(stim, nontrivial=True, sample=stim if len(so.samples) < 2 else None)
+        so.count(f"class={kind}")
+        so.count(f"mean/sd~1e{int(round(math.log10(big / max(sd))))}")
+        try:
+            with quiet(), np.errstate(all="ignore"):
+                g = np.array(tgt.gradient(xx.copy()), dtype=float).ravel()
+        except Exception as e:
+            findings.append(Finding("C05", f"{kind} ({wrap}) with means ~{big:g}: gradient raised {e!r}"[:300], {"kind": "offsets-raised"}, {"oracle": "exact", "stimulus": stim}))
+            continue
+        tol = 1e-9 if kind != "normalfull" else 1e-6
+        bad = [i for i in range(len(reff)) if abs(Fraction(float(g[i])) - reff[i]) > tol * max(abs(reff[i]), Fraction(1, 10 ** 12))]
+        if bad:
+            i = bad[0]
+            findings.append(Finding("C05", f"{kind} ({wrap}) with mean {float(mu.ravel()[min(i, d - 1)])!r} and standard deviation {sd[min(i, d - 1)]!r}: gradient[{i}] = {float(g[i])!r} "
+                                    f"but the derivative of the misfit there is {float(reff[i])!r} (relative error {float(abs(Fraction(float(g[i])) - reff[i]) / abs(reff[i])) if reff[i] else float('nan'):.2e})"[:400],
+                                    {"kind": "offsets", "class": kind}, {"oracle": "exact", "stimulus": stim, "gradient": g.tolist(), "expected": [float(v) for v in reff]}))
+    return so
+
+
 def raytracing_suite(rnd, count, findings):
     """LayeredRayTracing2D: gradient() vs the derivative of misfit()"""
     from hmclab.Distributions import LayeredRayTracing2D
@@ -141,6 +214,20 @@ def run(tier, seed):
                 # kinks of |x - mu| within the stencil are not counterexamples
                 if not node.has_kinks or all(abs(fd[i, 0] - g[i, 0]) > 0.5 * scale for i in bad):
                     problems.append(f"gradient coordinate {bad[0]} = {g[bad[0], 0]!r} but d misfit/dx = {fd[bad[0], 0]!r} (finite differences)")
+        # the gradient at x is a value: evaluating the gradient somewhere else afterwards does not change the array that was returned for x
+        if g.shape == (d, 1):
+            with np.errstate(all="ignore"), quiet():
+                try:
+                    held = node.obj.gradient(x.copy())
+                    kept = np.array(held, dtype=float).copy()
+                    x2 = distgen.point(rnd, node)
+                    node.obj.gradient(x2.copy())
+                    node.obj.gradient((2 * x - x2) if not node.positive_only else x2 * 1.5)
+                    if not np.array_equal(np.array(held, dtype=float), kept, equal_nan=True):
+                        problems.append(f"the array returned by gradient(x) changed when gradient() was evaluated at other points: {kept.ravel().tolist()} became "
+                                        f"{np.array(held, dtype=float).ravel().tolist()} (the result is a view of internal state)")
+                except Exception:
+                    pass
         if problems:
             findings.append(Finding("C05", f"{'/'.join(sorted(node.kinds()))}: {problems[0]}",
                                     {"kind": "gradient", "classes": sorted(node.kinds()), "problem": problems[0][:28]},
@@ -158,7 +245,8 @@ def run(tier, seed):
         if not (common.close(mm, m, 1e-8, 1e-9) and g.shape == (d, 1) and grad_ok):
             st.disagree(stim, {"misfit": mm, "gradient": mg}, {"misfit": m, "gradient": np.ravel(g).tolist()}, "misfit/gradient differ from the model")
     sr = raytracing_suite(random.Random(seed * 2654435761 % (1 << 31) + 5), 12 if thorough else 4, findings)
-    return [st, sr], findings
+    so = offsets_suite(random.Random(seed * 40503 + 5), 160 if thorough else 40, findings)
+    return [st, sr, so], findings
 
 
 def search(tier, seed, broken):
